@@ -830,9 +830,22 @@ package mocrelay
 
 //@ func Event.Serialize
 //@   serves C01
+//@   uses escPos_def escPos_mono
 //@   pure
 //@   ensures (result1 == nil) == (ev != nil)
 //@   promises ev != nil ==> result0 == serializeOf(ev)
+//@   ensures[C01] ev != nil ==> serHead(result0, ev)
+//@   ensures[C01] ev != nil ==> serTail(result0, ev)
+//@   ensures[C01] (ev != nil && ev.Tags == nil) ==> (len(result0) == serTagsPos(ev) + len(nullJSON) + 2 + strLitLen(ev.Content) && forall(k, 0, len(nullJSON), result0[serTagsPos(ev) + k] == nullJSON[k]))
+//@   ensures[C01] (ev != nil && ev.Tags != nil) ==> (len(result0) >= serTagsPos(ev) + 4 + strLitLen(ev.Content) && result0[serTagsPos(ev)] == '[' && result0[len(result0) - 3 - strLitLen(ev.Content)] == ']')
+//@   ensures[C01] (ev != nil && ev.Tags != nil && len(ev.Tags) == 0) ==> len(result0) == serTagsPos(ev) + 4 + strLitLen(ev.Content)
+//@   loop 1
+//@     invariant[C01] len(ret) >= serTagsPos(ev) + 1 && ret[serTagsPos(ev)] == '['
+//@     invariant[C01] serHead(ret, ev)
+//@     invariant[C01] len(ev.Tags) == 0 ==> len(ret) == serTagsPos(ev) + 1
+//@   loop 2
+//@     invariant[C01] len(ret) >= serTagsPos(ev) + 1 && ret[serTagsPos(ev)] == '['
+//@     invariant[C01] serHead(ret, ev)
 
 //@ func Event.Verify
 //@   serves C01
